@@ -199,6 +199,23 @@ def execute(cfg, V):
                 obs.append(eqv('second conversion Y', e2.Y, ex2['Y'], sc + [ex2['Y']])); obs.append(eqv('second conversion I', e2.I, ex2['I'], sc + [ex2['I']]))
         else:
             obs.append(Ob('second conversion yields the branch', 1 if ex2 is not None else 0))
+    # the LIST wrapper: entry i of transform(circuit, w=[...]) is the conversion at the i-th listed frequency (unsorted list with a repeat)
+    if cfg.get('listed', True) and rm == 'default' and not cfg['kind'].startswith('periodic'):
+        wb = V.val('w_other', 'pos')
+        listed = [wb, 0, w, wb]
+        nets = cct.transform(circuit, w=list(listed))
+        obs.append(Ob('one network per listed frequency', 0 if len(nets) == len(listed) else 1))
+        if len(nets) == len(listed):
+            for i, wi in enumerate(listed):
+                bi = [b for b in nets[i].branches if str(b.id) == 'X']
+                exi = expect(wi, 1e-3)
+                if len(bi) != 1 or exi is None:
+                    obs.append(Ob(f'listed frequency {i} yields the branch', 1 if (exi is not None and len(bi) != 1) else 0)); continue
+                ei = bi[0].element
+                if 'Z' in exi:
+                    obs.append(eqv(f'listed {i} Z', ei.Z, exi['Z'], sc + [exi['Z']])); obs.append(eqv(f'listed {i} V', ei.V, exi['V'], sc + [exi['V']]))
+                else:
+                    obs.append(eqv(f'listed {i} Y', ei.Y, exi['Y'], sc + [exi['Y']])); obs.append(eqv(f'listed {i} I', ei.I, exi['I'], sc + [exi['I']]))
     if cfg.get('twin'):
         obs = [Ob('twin', (el.Z if 'Z' in ex else el.Y) - (ex.get('Z', ex.get('Y'))) - 1, [1])]
     return obs
@@ -284,7 +301,7 @@ def main(tier):
     rep.functions |= ft.seen
     driver.run_pool(driver.guarded(worker), cfgs, rep, chunksize=2)
     return rep.finish(
-        explanation='bounded symbolic verification: transform_circuit is executed on circuits containing one component of every kind components.py can construct (symbolic parameters, symbolic analysis frequency and resolution, varying position, neighbours and ground placement); the resulting branch is compared with the statement\'s formulas (R, 1/G, R+jX, 1/(G+jB), jwL, jwC, V_ref^2/P, A e^{j phi} in band, short / open off band, true n-th harmonic for periodic sources obtained by integrating the waveform\'s own time function) as polynomial identities decided by z3 / normal form in every region of the frequency gate; ids, order, terminal order, neighbour values and the reference-node rule are asserted on every path',
+        explanation='bounded symbolic verification: transform_circuit is executed on circuits containing one component of every kind components.py can construct (symbolic parameters, symbolic analysis frequency and resolution, varying position, neighbours and ground placement); the resulting branch is compared with the statement\'s formulas (R, 1/G, R+jX, 1/(G+jB), jwL, jwC, V_ref^2/P, A e^{j phi} in band, short / open off band, true n-th harmonic for periodic sources obtained by integrating the waveform\'s own time function) as polynomial identities decided by z3 / normal form in every region of the frequency gate; ids, order, terminal order, neighbour values and the reference-node rule are asserted on every path; a second conversion with another resolution and the list wrapper transform(circuit, w=[...]) on an unsorted list with a repeat must give, entry by entry, the conversion at that frequency',
         assumptions=['exact real arithmetic, pi transcendental', 'harmonic index of periodic sources bounded by %d (paths above are counted as out_of_bound)' % KMAX,
                      'in band means |w - ws| <= w_resolution', 'periodic sources: fundamental frequency above twice the resolution (harmonics resolvable)', 'special values 0 / inf / w = 0 are explicit concrete cases'],
         bounds={'component kinds': list(KINDS), 'waveforms': list(C08.WAVES), 'layouts': 'component alone, between two / three neighbours at every position, ground first / middle / last / absent',
